@@ -1,28 +1,109 @@
 /-
   C19 — Concurrent quadtree queries are race-free and see a consistent tree.
-  PROPERTY THEOREMS:
-   (1) about facts REGENERATED from the Go source on every run (`Generated/Writes.lean`): no
-       function reachable from the documented read-only query methods writes through the tree;
-       every pruning-bound pointer handed to a visitor points at a per-call local (a copy of
-       `q.bound`, or a by-value parameter);
-   (2) about the interleaving model `Orb.Conc`: under that frame condition, for EVERY schedule of
-       any number of threads the tree is unchanged and every thread ends with exactly the answers
-       it computes when run alone.
-  Data-race freedom under the Go memory model itself is not a theorem: it is observed with the
-  race detector on the real code (harness/c19.go), and the write-set classification is syntactic.
+
+  PROPERTY THEOREMS, and what each does and does not establish.
+
+  (1) About facts REGENERATED from the Go source on every run (`Generated/Writes.lean`; factgen
+      type-checks package quadtree and runs a whole-package, field-based points-to analysis):
+        * `no_shared_writes` — THE OBLIGATION "every write root on a query path is per-call
+          allocated": every assignment, increment and every destination argument of copy / append /
+          clear / delete / a call that leaves the package, in every function reachable from the
+          documented read-only query methods, can only designate a local variable, memory allocated
+          during the call, or the caller's own buffer.  A heap kept in the tree, a scratch slice of
+          the tree used as a copy/append/sort destination, a write through a visitor field or a local
+          that holds a tree node all give a row whose class list contains "tree" and break it.
+        * `write_roots_initialised_per_call` — the same obligation re-derived INSIDE Lean from the
+          initialisation tables instead of from factgen's class column: for every write, every
+          reference field the written path dereferences is initialised (in every composite literal
+          and every assignment of the package) from make / a composite literal / the address of a
+          local / the caller's buffer, and the variable the path starts from is bound, at every
+          definition, assignment and call site, to such memory.
+        * `per_call_fields_initialised_per_call`, `tree_refs_never_written_through`,
+          `bound_pointers_local`, `no_package_state`, `only_documented_callbacks`,
+          `query_path_resolved`.
+      NOT established by (1): that factgen's extraction (call reachability, the points-to rules, the
+      treatment of code outside the package as opaque) is right — that is trusted; the Lean kernel
+      checks the tables, not the extractor.
+
+  (2) About the interleaving model `Orb.Conc`:
+        * `schedule_independent`, `concurrent_answers_eq_sequential` are about `Conc.step`, whose
+          TYPE already forbids writing the tree (`f : T → S → S`).  They are the statement "a
+          read-only step commutes with everybody else's", for whole-query atomic steps.  NO change of
+          the Go code can make them fail; they do not, by themselves, say anything about orb.
+        * `schedule_independent_W`, `same_as_alone` are about `Conc.stepW`, where a step may write the
+          shared structure; the frame condition `FrameOn` is a hypothesis, and
+          `frame_condition_is_needed` shows the conclusion is FALSE without it (a query that caches in
+          the tree gives schedule-dependent answers).
+        * `queries_frame_from_facts`, `queries_schedule_independent` DISCHARGE that hypothesis from
+          the regenerated table, for the abstract query machine of `Orb.Conc`: a query is any
+          sequence of write instructions each of which is one of the table's rows, landing in the
+          thread's private memory or in shared memory according to that row's classes, and writing
+          an arbitrary function of everything the thread can read; steps interleave PER INSTRUCTION.
+          If a row of the table stops being harmless, `no_shared_writes` fails and with it these.
+      NOT established by (2): that the real program IS such a machine — that a goroutine's private
+      memory (its stack, what it allocated, its caller's buffer) is unreachable for other
+      goroutines is exactly what the classes of (1) claim, syntactically; the Go memory model
+      (non-sequentially-consistent executions of racy programs) is not formalised.  Data-race
+      freedom on the real code is observed with the race detector (harness/c19.go), not proved.
 -/
 import OrbProofs.C19Lemmas
 
 namespace Orb.C19
 open Generated.Writes Orb.Conc
 
-/-- a write is harmless for other goroutines: its root is a local, per-call visitor/heap state, or
-    the caller-supplied result buffer (per goroutine by the documented contract) -/
-def harmless (w : W) : Bool :=
-  w.root == "local" || w.root == "visitor" || (w.root == "other" && (w.lhs == "buf" || w.lhs == "buf[i]"))
+/-! ### (1) the regenerated write table -/
 
-/-- NO function reachable from the read-only query methods writes to tree memory. -/
+/-- memory another goroutine cannot reach: a local, memory allocated during the call, or the
+    caller-supplied result buffer (per goroutine by the documented contract) -/
+def harmlessRoot (r : String) : Bool := r == "local" || r == "percall" || r == "caller"
+
+def rootsOK (rs : List String) : Bool := rs.all harmlessRoot
+
+/-- a write is harmless for other goroutines: it is not a channel send or a `go` statement, the
+    analysis found what it may designate (a non-empty class list), and every class is harmless -/
+def harmless (w : W) : Bool :=
+  w.kind != "send" && w.kind != "go" && !w.roots.isEmpty && rootsOK w.roots
+
+/-- EVERY WRITE ROOT ON A QUERY PATH IS PER-CALL ALLOCATED: no function reachable from the
+    read-only query methods writes to (or hands out as a copy/append/sort/… destination) memory of
+    the tree, package-level state, or memory of unknown origin. -/
 theorem no_shared_writes : writes.all harmless = true := by decide
+
+/-- every store to field `f` anywhere in the package puts per-call / caller memory there -/
+def fieldOK (f : String) : Bool := fieldInits.all fun fi => fi.field != f || rootsOK fi.roots
+
+/-- every binding of variable `v` of function `fn` (definition, assignment, call site, entry point)
+    gives it per-call / caller memory (or no reference at all) -/
+def varOK (fn v : String) : Bool := bindings.all fun b => !(b.fn == fn && b.var == v) || rootsOK b.roots
+
+/-- does the write dereference the variable its path starts from?  (a plain `x = …`, `x++` does not) -/
+def throughRootVar (w : W) : Bool :=
+  !((w.kind == "assign" || w.kind == "incdec" || w.kind == "range") && w.lhs == w.rootVar)
+
+/-- The same obligation, derived in Lean from the INITIALISATION tables: whatever a write path
+    dereferences — the reference fields on the way and the variable it starts from — was initialised
+    per call (make / composite literal / address of a local / caller's buffer), at every place the
+    package stores to that field or binds that variable. -/
+theorem write_roots_initialised_per_call :
+    writes.all (fun w => w.via.all fieldOK && (!throughRootVar w || varOK w.fn w.rootVar)) = true := by decide
+
+/-- the struct types whose instances are the per-call search state -/
+def perCallTypes : List String := ["findVisitor", "nearestVisitor", "inBoundVisitor", "visit", "heapItem"]
+
+/-- fields of per-call objects that hold READ-ONLY references to tree-owned memory: the node found so
+    far, and the stored pointers collected in the heap -/
+def treeRefFields : List String := ["findVisitor.closest", "heapItem.point"]
+
+/-- Every slice / pointer / function field of a per-call visitor, visit or heap item is initialised
+    from per-call or caller memory wherever the package stores to it — except the two read-only
+    references into the tree. -/
+theorem per_call_fields_initialised_per_call :
+    fieldInits.all (fun fi => !perCallTypes.contains fi.owner || treeRefFields.contains fi.field || rootsOK fi.roots) = true := by
+  decide
+
+/-- … and no write on the query path goes through one of those two references. -/
+theorem tree_refs_never_written_through :
+    writes.all (fun w => w.via.all fun f => !treeRefFields.contains f) = true := by decide
 
 /-- Every `closestBound` / `bound` pointer is the address of a per-call local
     (`b := q.bound; closestBound: &b`), never of the tree's own bound. -/
@@ -32,25 +113,120 @@ theorem bound_pointers_local :
 /-- The query path touches no package-level variable (no shared free lists, caches or counters). -/
 theorem no_package_state : globalsUsed = [] := by decide
 
-/-- The three visitor constructions are still there, and every query function was found. -/
-theorem query_path_resolved : boundInits.length = 3 ∧ missingFuncs = [] ∧ reachable.length ≥ 15 := by decide
+/-- The only code outside the package that the query path hands tree memory to is the caller's own:
+    the filter function and `Pointer.Point` of the stored values. -/
+theorem only_documented_callbacks :
+    callbacks.all (fun c => c.2.1 == "v.filter" || c.2.1 == "n.Value.Point") = true := by decide
 
-/-- FOR EVERY SCHEDULE: the tree is unchanged and thread `i` is in the state it reaches by taking
-    its own steps alone (as many as it was scheduled). -/
+/-- The three visitor constructions are still there, every query function was found, and package
+    quadtree type-checked without error (the analysis saw every expression typed). -/
+theorem query_path_resolved :
+    boundInits.length = 3 ∧ missingFuncs = [] ∧ reachable.length ≥ 15 ∧ typeErrors = [] := by decide
+
+/-! ### (2a) steps that cannot write the tree by construction -/
+
+/-- FOR EVERY SCHEDULE of steps that (by their type) cannot write the tree: the tree is unchanged
+    and thread `i` is in the state it reaches by taking its own steps alone.  This holds for any
+    Go code whatsoever; it is the commutation argument, not a fact about orb. -/
 theorem schedule_independent {T S : Type} (f : T → S → S) (s : Sys T S) (σ : List Nat) :
     (run f s σ).tree = s.tree ∧ ∀ i, (run f s σ).st i = iter (f s.tree) (σ.count i) (s.st i) :=
   schedule_independent' f s σ
 
-/-- Hence every concurrent query returns exactly what the same query returns when run alone: once
-    a thread has been scheduled at least as often as it has queries, its answers are the sequential
-    answers, in order, whatever the other threads did in between. -/
+/-- For the same kind of step, with whole-query atomic steps: once a thread has been scheduled at
+    least as often as it has queries, its answers are the sequential answers, in order. -/
 theorem concurrent_answers_eq_sequential {T Q A : Type} (answer : T → Q → A) (t : T) (qs : Nat → List Q)
     (σ : List Nat) (i : Nat) (h : (qs i).length ≤ σ.count i) :
     ((run (answerStep answer) ⟨t, fun j => ⟨qs j, []⟩⟩ σ).st i).done = (qs i).map (answer t) ∧
     (run (answerStep answer) ⟨t, fun j => ⟨qs j, []⟩⟩ σ).tree = t :=
   concurrent_answers_eq_sequential' answer t qs σ i h
 
-/-- Non-vacuity: the regenerated write list is not empty and contains writes through visitor state. -/
-example : writes.length ≥ 30 ∧ (writes.any fun w => w.root == "visitor") = true := by decide
+/-! ### (2b) steps that may write the tree: the frame condition as a hypothesis -/
+
+/-- FOR EVERY SCHEDULE of steps that MAY write the shared structure: if every step taken from a
+    state satisfying the invariant `P` leaves the shared structure alone (frame condition), the
+    shared structure is unchanged at the end and thread `i` is in the state it reaches by taking its
+    own steps against the ORIGINAL structure. -/
+theorem schedule_independent_W {T S : Type} (P : S → Prop) (f : T → S → T × S) (hf : FrameOn P f)
+    (s : Sys T S) (hP : ∀ i, P (s.st i)) (σ : List Nat) :
+    (runW f s σ).tree = s.tree ∧
+    ∀ i, (runW f s σ).st i = iter (fun x => (f s.tree x).2) (σ.count i) (s.st i) :=
+  ⟨(schedule_independent_W' P f hf s hP σ).1, (schedule_independent_W' P f hf s hP σ).2.1⟩
+
+/-- "every concurrent query returns exactly what the same query returns when run alone": under the
+    frame condition thread `i` ends any schedule in the state in which it ends the schedule that
+    consists of its own steps only. -/
+theorem same_as_alone {T S : Type} (P : S → Prop) (f : T → S → T × S) (hf : FrameOn P f)
+    (s : Sys T S) (hP : ∀ i, P (s.st i)) (σ : List Nat) (i : Nat) :
+    (runW f s σ).st i = (runW f s (List.replicate (σ.count i) i)).st i :=
+  same_as_alone' P f hf s hP σ i
+
+/-- a query that keeps a counter in the shared structure: it stores what it read and bumps it -/
+def cachingQuery (t : Nat) (_ : Nat) : Nat × Nat := (t + 1, t)
+
+/-- THE FRAME CONDITION IS NEEDED: for a step that writes the shared structure, two schedules with
+    the same steps per thread leave thread 0 with different results, and the structure changed. -/
+theorem frame_condition_is_needed :
+    (runW cachingQuery ⟨0, fun _ => 0⟩ [0, 1]).st 0 ≠ (runW cachingQuery ⟨0, fun _ => 0⟩ [1, 0]).st 0 ∧
+    (runW cachingQuery ⟨0, fun _ => 0⟩ [0, 1]).tree ≠ 0 := by decide
+
+/-! ### (2c) the frame condition discharged from the regenerated table -/
+
+/-- where the table says a write lands -/
+def targetOfWrite (w : W) : Target := if harmless w then .priv else .shared
+
+/-- an instruction of the abstract query machine is one of the writes of the regenerated table -/
+def Licensed {Sh Pr : Type} (ins : Instr Sh Pr) : Prop := ∃ w ∈ writes, ins.target = targetOfWrite w
+
+/-- a query thread: every instruction it will ever execute is in the table -/
+def QueryThread {Sh Pr : Type} (th : Thread Sh Pr) : Prop := ∀ ins ∈ th.prog, Licensed ins
+
+/-- FROM THE GENERATED FACTS: an instruction licensed by the table lands in private memory. -/
+theorem licensed_private {Sh Pr : Type} (ins : Instr Sh Pr) (h : Licensed ins) : ins.target = .priv := by
+  obtain ⟨w, hw, ht⟩ := h
+  have := List.all_eq_true.mp no_shared_writes w hw
+  simp [ht, targetOfWrite, this]
+
+/-- The frame condition of the query machine, discharged from `no_shared_writes`. -/
+theorem queries_frame_from_facts {Sh Pr : Type} :
+    FrameOn (QueryThread (Sh := Sh) (Pr := Pr)) instrStep :=
+  instr_frame_of Licensed licensed_private
+
+/-- Hence, for every number of query threads, every program made of writes of the table, and EVERY
+    interleaving of their individual write instructions: the shared memory (tree, package state) is
+    unchanged, and each thread ends exactly where it ends when it runs alone. -/
+theorem queries_schedule_independent {Sh Pr : Type} (sh : Sh) (ths : Nat → Thread Sh Pr)
+    (h : ∀ i, QueryThread (ths i)) (σ : List Nat) :
+    (runW instrStep ⟨sh, ths⟩ σ).tree = sh ∧
+    ∀ i, (runW instrStep ⟨sh, ths⟩ σ).st i = (runW instrStep ⟨sh, ths⟩ (List.replicate (σ.count i) i)).st i :=
+  ⟨(schedule_independent_W QueryThread instrStep queries_frame_from_facts ⟨sh, ths⟩ h σ).1,
+   fun i => same_as_alone QueryThread instrStep queries_frame_from_facts ⟨sh, ths⟩ h σ i⟩
+
+/-! ### non-vacuity -/
+
+/-- the regenerated tables are not empty: writes through visitor state, through the per-call heap and
+    into the caller's buffer are there, as are the field initialisations the second theorem joins on -/
+example : writes.length ≥ 30 ∧ (writes.any fun w => w.roots == ["percall"] && w.via == ["nearestVisitor.closestBound"]) = true ∧
+    (writes.any fun w => w.kind == "append" && w.roots == ["caller", "percall"]) = true ∧
+    (fieldInits.any fun fi => fi.field == "nearestVisitor.maxHeap" && fi.how == "make") = true ∧
+    (bindings.any fun b => b.fn == "maxHeap.Push" && b.var == "h" && b.roots == ["percall"]) = true := by decide
+
+/-- `harmless` does reject: a heap that lives in the tree, a `copy` into the tree, a send -/
+example : harmless ⟨"maxHeap.Push", "(*h)[i].point", "assign", ["tree"], "h", [], ["TREE"]⟩ = false ∧
+    harmless ⟨"Quadtree.KNearestMatching", "q.scratch", "copy", ["tree"], "q", ["Quadtree.scratch"], ["TREE"]⟩ = false ∧
+    harmless ⟨"f", "ch <-", "send", ["percall"], "ch", [], []⟩ = false ∧
+    harmless ⟨"f", "p.x", "assign", [], "p", [], []⟩ = false := by decide
+
+/-- the query machine has licensed instructions and query threads: the hypotheses of
+    `queries_schedule_independent` are satisfiable -/
+example : ∃ th : Thread Nat Nat, QueryThread th ∧ th.prog.length = 2 := by
+  refine ⟨⟨[⟨.priv, fun sh pr => sh + pr, fun sh _ => sh⟩, ⟨.priv, fun _ pr => pr + 1, fun sh _ => sh⟩], 0⟩, ?_, rfl⟩
+  intro ins hins
+  have hw : (⟨"childIndex", "i", "assign", ["local"], "i", [], ["V:childIndex.i"]⟩ : W) ∈ writes := by decide
+  refine ⟨_, hw, ?_⟩
+  have : ins.target = .priv := by
+    simp only [List.mem_cons, List.not_mem_nil, or_false] at hins
+    rcases hins with h | h <;> simp [h]
+  rw [this]
+  decide
 
 end Orb.C19
